@@ -252,6 +252,20 @@ def sync (s : State) (id : Nat) : Out :=
     | some m => .syncReply d.auth.key s.off bits (some m) []
     | none => .syncReply d.auth.key s.off bits none s.servers
 
+/-- `RecentReportsHandler` / `getRecentReportsWithSignature`: the whole window of the device that owns
+`key`; `none` = HTTP 500. The `TimeslotOffset` field of the reply is never set by the code (always 0),
+which is what the model says too. A read-only query: no `Op`, the state is untouched by construction. -/
+def recentQuery (s : State) (key : Key) : Option (List Report × Nat) :=
+  match s.shortIds.get key with
+  | none => none
+  | some id =>
+    match s.devices.get id with
+    | none => none
+    | some d => some (d.reports, 0)
+
+/-- `EquipmentHandler`: the authorization of every device in the equipment map, by id. -/
+def equipmentQuery (s : State) : List (Nat × Auth) := s.devices.map (fun p => (p.1, p.2.auth))
+
 def authServer (V : Verify) (s : State) (a : AuthServer) : State × Out :=
   if a.loc.length > 255 then (s, .refused) else
   if !V s.gcaKey (AuthServer.signingBytes a) a.sig then (s, .refused) else
